@@ -355,3 +355,59 @@ def rule_closure_slots(ck, repo, R):
             src(n.func.value.value) == 'order' and src(n.func.value.slice) == atom and n.args and pos_atom and len(names) == len(elts) and src(n.args[0]) == names[pos_atom[0]]]
     ck.decide(len(back) == 1, R, 'close:back-reference', len(back), 'the closing atom no longer appends the opening atom to its own neighbour order', file=f.file, func='parser')
     ck.floor(R, 6)
+
+
+def rule_cx_radical_lists(ck, repo, R, modules):
+    """CX radical block `^N:i,j,k`: the text the consumer splits on ',' covers the whole index list"""
+    import re._parser as sre
+    ck.rule(R, 'the CXSMILES / CXSMARTS radical block ^N:i,j,k: what findall() hands to the consumer, cut as the consumer cuts it, is the WHOLE index list '
+               '(no capture group and the 3-character prefix ^N: sliced off, or one capture group spanning the full list and no slicing); decided for the SMILES and the SMARTS reader separately')
+    shapes = {}
+    for mname in modules:
+        m = repo.module(mname)
+        ck.require(m is not None, f'{mname} not found')
+        pat = None
+        for n in m.tree.body:
+            if isinstance(n, ast.Assign) and isinstance(n.targets[0], ast.Name) and n.targets[0].id == 'cx_radicals' and isinstance(n.value, ast.Call) and n.value.args and \
+                    isinstance(n.value.args[0], ast.Constant):
+                pat = n.value.args[0].value
+        ck.require(pat is not None, f'{mname}: cx_radicals pattern not found')
+        parsed = sre.parse(pat)
+        groups = parsed.state.groups - 1
+        # consumers: for/comprehension over findall(cx_radicals, ...) followed by <cut>.split(',')
+        cuts = []
+        for n in ast.walk(m.tree):
+            gens = []
+            if isinstance(n, (ast.ListComp, ast.SetComp, ast.GeneratorExp)):
+                gens = n.generators
+            elif isinstance(n, ast.For):
+                gens = [n]
+            for i, g in enumerate(gens):
+                if isinstance(g.iter, ast.Call) and src(g.iter.func) == 'findall' and g.iter.args and src(g.iter.args[0]) == 'cx_radicals' and isinstance(g.target, ast.Name):
+                    var = g.target.id
+                    scope = n if not isinstance(n, ast.For) else ast.Module(body=n.body, type_ignores=[])
+                    for c in ast.walk(scope):
+                        if isinstance(c, ast.Call) and isinstance(c.func, ast.Attribute) and c.func.attr == 'split' and c.args and isinstance(c.args[0], ast.Constant) and c.args[0].value == ',':
+                            recv = c.func.value
+                            if any(isinstance(x, ast.Name) and x.id == var for x in ast.walk(recv)):
+                                cuts.append((src(recv).replace(var, 'X'), c.lineno))
+        ck.require(cuts, f'{mname}: no consumer of findall(cx_radicals, ...) found')
+        for cut, line in cuts:
+            if groups == 0:
+                ok = cut == 'X[3:]'
+                why = f'pattern has no capture group, so findall yields the full match `^N:i,j,..`; the consumer cuts `{cut}` (expected X[3:])'
+            elif groups == 1:
+                # the single group must span everything after the colon
+                tail_ok = False
+                items = list(parsed)
+                if items and items[-1][0] == sre.SUBPATTERN and items[-1][1][0] == 1:
+                    sub = items[-1][1][3]
+                    tail_ok = any(op in (sre.MAX_REPEAT, sre.MIN_REPEAT) and any(o2 == sre.LITERAL and a2 == ord(',') for o2, a2 in av[2]) for op, av in sub)
+                ok = cut == 'X' and tail_ok
+                why = f'pattern has one capture group, so findall yields only that group; it {"spans" if tail_ok else "does NOT span"} the whole index list and the consumer cuts `{cut}`'
+            else:
+                ok, why = False, f'pattern has {groups} capture groups: findall yields tuples'
+            ck.decide(ok, R, f'{mname}:{cut}@{groups}', why, f'{mname}: {why}: indices after the first one are lost (or the prefix is parsed as an index)',
+                      file=m.relpath, line=line, construct=pat)
+        shapes[mname] = (pat, tuple(sorted({c for c, _ in cuts})))
+    ck.floor(R, 3)
